@@ -48,8 +48,14 @@ def cycleLengths (perm : List Nat) : List Nat := ((List.range 4).filter (isMin p
 def fixedPoly (R : Nat) (perm : List Nat) : List Nat :=
   (cycleLengths perm).foldl (fun acc l => pmul acc (ppow (factor l) R)) pone
 
-/-- `Σ_π [x² y^k] Π_cycles (1 + x^ℓ + y^ℓ)^R` over the generated `Permutation::exhaust` table -/
-def fixedSum (R k : Nat) : Nat := (RP.Gen.permExhaust.map fun perm => coeff (fixedPoly R perm) 2 k).sum
+def padd (a b : List Nat) : List Nat := (List.range 18).map fun idx => a.getD idx 0 + b.getD idx 0
+
+/-- `Σ_π Π_cycles (1 + x^ℓ + y^ℓ)^R` over the generated `Permutation::exhaust` table -/
+def fixedTotal (R : Nat) : List Nat :=
+  RP.Gen.permExhaust.foldl (fun acc perm => padd acc (fixedPoly R perm)) (List.replicate 18 0)
+
+/-- the coefficients of `x² y^k` for the board sizes `k` of the four streets -/
+def fixedSums (R : Nat) : List Nat := RP.Gen.nObserved.map (fun k => coeff (fixedTotal R) 2 k)
 
 -- sanity of the machinery on things one can check by hand
 example : cycleLengths [1, 0, 3, 2] = [2, 2] ∧ cycleLengths [0, 1, 2, 3] = [1, 1, 1, 1] ∧
@@ -65,22 +71,19 @@ theorem permExhaust_is_S4 :
     RP.Gen.permExhaust.length = 24 ∧ RP.Gen.permExhaust.Nodup ∧
     ∀ p ∈ RP.Gen.permExhaust, p.length = 4 ∧ ∀ s, s < 4 → s ∈ p := by decide +kernel
 
-/-- board sizes per street, from the generated `n_observed` table -/
-def boardSizes : List Nat := RP.Gen.nObserved
-
 /-- **C06_burnside_arith** (standard deck, 13 ranks): the published class counts
 169 / 1,286,792 / 13,960,050 / 123,156,254 are exactly `(1/24)·Σ_π [x²y^k] Π_cycles (1+x^ℓ+y^ℓ)^13`;
 the sums are divisible by 24. -/
 theorem C06_burnside_arith_std :
-    boardSizes.map (fun k => fixedSum 13 k) = RP.Gen.n_isomorphisms_Std.map (· * 24) := by decide +kernel
+    fixedSums 13 = RP.Gen.n_isomorphisms_Std.map (· * 24) := by decide +kernel
 
 /-- **C06_burnside_arith** (short deck, 9 ranks): 81 / 186,696 / 1,340,856 / 7,723,728 -/
 theorem C06_burnside_arith_short :
-    boardSizes.map (fun k => fixedSum 9 k) = RP.Gen.n_isomorphisms_Short.map (· * 24) := by decide +kernel
+    fixedSums 9 = RP.Gen.n_isomorphisms_Short.map (· * 24) := by decide +kernel
 
 /-- the values named in the property statement -/
 theorem C06_burnside_values :
     RP.Gen.n_isomorphisms_Std = [169, 1286792, 13960050, 123156254] ∧
-    boardSizes = [0, 3, 4, 5] := by decide
+    RP.Gen.nObserved = [0, 3, 4, 5] := by decide
 
 end RP.C06
